@@ -74,9 +74,18 @@ impl LuauRequireMode {
     }
 
     pub(crate) fn is_module_folder_name(&self, path: &Path) -> bool {
-        let expect_value = Some(self.module_folder_name());
-        path.file_name().and_then(OsStr::to_str) == expect_value
-            || path.file_stem().and_then(OsStr::to_str) == expect_value
+        let module_folder_name = self.module_folder_name();
+        let file_name = path.file_name().and_then(OsStr::to_str);
+
+        // the module folder file itself, or (when the name has no extension of its own) the
+        // name followed by a Lua extension; `init.json` is not the module folder file
+        file_name == Some(module_folder_name)
+            || (Path::new(module_folder_name).extension().is_none()
+                && matches!(
+                    path.extension().and_then(OsStr::to_str),
+                    Some("lua" | "luau")
+                )
+                && path.file_stem().and_then(OsStr::to_str) == Some(module_folder_name))
     }
 
     pub(crate) fn find_require(
